@@ -50,6 +50,56 @@ def stream(ctx, n, so, to, tts, extra, aged):
     ctx.sample(dict(stream=s.label, first_lines=s.lines[:8]))
 
 
+def dyn_stream(ctx, n, so, to, tts):
+    """`BDD.copy` into a target in which dynamic reordering is ENABLED and the threshold is
+    reached while the copy runs: the copy runs with requests disabled in the TARGET (the level
+    map is computed once), so no reordering is served inside it, the signal does not escape,
+    the threshold is restored, and the copy denotes the same function by name; the target
+    holds sub-functions already (what a served reordering would keep and re-use)"""
+    rng = ctx.rng
+    s = ctx.session(f'copy into a reordering target n={n} src={so} tgt={to}')
+    src = Mgr(ctx, None, n, so, m=0, session=s)
+    tgt = Mgr(ctx, None, n, to, m=1, session=s, aged=rng.random() < 0.5)
+    names = [vname(i) for i in range(n)]
+    for t in tts:
+        u = src.build(t)
+        if u is None:
+            continue
+        # cofactors first, kept: the later copy of the whole function meets them in the target
+        kept = []
+        j = so.index(0) if 0 in so else 0
+        for val in (False, True):
+            c = s.op(0, 'cofactor', u, 'n', {j: val}) if rng.random() < 0.7 else None
+            if c is not None and abs(c) != 1:
+                r0 = s.op(1, 'copy', 0, c)
+                if r0 is not None and abs(r0) != 1:
+                    s.op(1, 'incref', r0)
+                    kept.append(r0)
+        s.op(1, 'gc', None)
+        s.op(1, 'configure', True)
+        for sign in (1, -1):
+            k = rng.choice([1, 1, 2, 3, 5, 8])
+            s.op(1, 'set_last_len', k)
+            r = s.op(1, 'copy', 0, sign * u)
+            ctx.case(('dyn', n, so, to, t, sign, k), t not in (0, T.full(n)))
+            ctx.count('copy-into-reordering-target')
+            tu = t if sign == 1 else T.neg(t, n)
+            if r is None:
+                ctx.violation('C11:rejected', 'copy into a target with reordering enabled was rejected', src.case())
+                continue
+            if abs(r) not in tgt.b._succ or oracle.tt_fast(tgt.b, r, names) != tu:
+                ctx.violation('C11:wrong-function',
+                              f'copy of {tu:#x} into a target with reordering enabled (threshold {k}) denotes '
+                              'another function', src.case())
+            if tgt.b._last_len != k:
+                ctx.violation('C11:threshold', f'threshold {k} became {tgt.b._last_len} during the copy', src.case())
+        s.op(1, 'configure', False)
+        for r0 in kept:
+            s.op(1, 'decref', r0)
+    tgt.check_table('C11:target-table', 'target not canonical')
+    ctx.sample(dict(stream=s.label, first_lines=s.lines[:8]))
+
+
 def autoref_copy_stream(ctx, n, so, to, tts):
     """copies between two dd.autoref managers through `BDD.copy` (the method) and the
     module-level `copy_bdd` (the runner alternates): each copy is a Function of the target
@@ -249,6 +299,10 @@ def run(ctx):
         for so in gen.orders(n):
             for to in gen.orders(n):
                 stream(ctx, n, so, to, range(1 << (1 << n)), 0, False)
+    for _ in range(8 if q else 80):
+        n_ = rng.choice([3, 4, 5])
+        dyn_stream(ctx, n_, tuple(rng.sample(range(n_), n_)), tuple(rng.sample(range(n_), n_)),
+                   [rng.getrandbits(1 << n_) for _ in range(3)])
     for _ in range(6 if q else 60):
         n_ = rng.choice([3, 4])
         autoref_copy_stream(ctx, n_, rng.choice(gen.orders(n_)), rng.choice(gen.orders(n_)),
